@@ -41,7 +41,7 @@ class RoundTrip(Family):
                 if adaptive and m > (4 if tier == "quick" else 5):
                     continue
                 for n in ns:
-                    if adaptive and n > 4:
+                    if adaptive and (n > 4 or (m >= 5 and n > 2)):
                         continue
                     ps = params_for(s, tier)
                     ps = [p for p in ps if "a" not in p or int(p["a"]) <= n]
